@@ -1,29 +1,183 @@
 """C20 descriptor hygiene."""
+import os
 from vf.l2 import l2_job, L2_STUBS
+from vf.runner import fl, REPO
 
 KINDS = {1: "fd", 2: "tmr", 3: "sgn", 4: "path", 5: "pid", 6: "task", 7: "thresh"}
 ROUTES = {0: "stop", 1: "pill", 2: "dereg", 3: "selfdereg", 4: "srcdereg", 5: "pauseresume", 6: "pausestop",
           7: "selfstop", 8: "pausedsrcdereg"}
-SYM = ["auto-close bit", "source key (timer period/clock/absolute bit, signal number, pid, task id, threshold)",
-       "errno left by callbacks (int)"]
+KF_DUP = "C20_dup_autoclose"
+
+# The repair of the C20 finding gives the modules' source registries (bst) their own element destructor; the common
+# rule for container destructor sites only knows mem_dtor.  remove_node is the name of the element-removal static of
+# both bst.c and list.c (one of them is renamed $linkN at link time), so both sites get both targets; a target that
+# does not exist in the tree under test is dropped by the runner.
+FP_EXTRA = [(r"remove_node::l(\$link\d+)?\.dtor$", ["mem_dtor", fl("mod_src_dtor", "src.c")])]
+
+META = {
+    "functions": ["src.c: create_src (DUP -> dup()), src_priv_dtor (AUTOCLOSE), register/deregister_mod_src, "
+                  "register/deregister_ctx_src, registry element destructor", "poll/epoll.c: poll_create, "
+                  "poll_set_new_evt ADD/RM (closes internal descriptors), poll_destroy",
+                  "poll/cmn_linux.c: create_priv_fd (timerfd, signalfd, inotify, pidfd, eventfd)",
+                  "mod.c: init_pubsub_fd/_pipe, manage_srcs, reset_module, start, stop, mod_deregister, module_dtor",
+                  "ctx.c: recv_events (one-shot removal, poison pill), loop_start/loop_stop (tick source), ctx_dtor, "
+                  "m_ctx_fd, m_ctx_set_tick", "evts.c: evt_dtor (reference on the source), m_mod_stash",
+                  "ps.c, structs, mem: everything reached"],
+    "stubs": L2_STUBS,
+    "bounds": "1-2 modules, one source under test per scenario (plus message pipes, poll handle, tick), <= 4 "
+              "m_ctx_dispatch calls, descriptor table of 12 slots",
+    "outside": "more than one source per module at a time, several contexts, plugin (dlopen) modules, the fuse fs, "
+               "kqueue / io_uring back ends, task bodies running in parallel with the loop (deferred-call model; a task "
+               "body that runs after its source was destroyed is a lifetime matter of C04/C06 and is kept out of the "
+               "scenarios by running the body before the module stops), allocation failure, failing system calls",
+    "assumptions": ["descriptor ownership is the OS model's ghost state: a slot is library-owned iff the library opened "
+                    "it (pipe, epoll_create1, timerfd_create, signalfd, inotify_init1, pidfd_open, eventfd, dup); the "
+                    "duplicate returned by m_ctx_fd() is re-tagged user-owned by the harness (documented contract)"],
+}
 
 
-def _route(kind, route, dup=0, oneshot=0, fire=0, loop=0, ac=0, timeout=900, symabs=0):
-    name = "C20.route.%s%s.%s.o%d.f%d.l%d.ac%d%s" % (KINDS[kind], ".dup" if dup else "", ROUTES[route], oneshot, fire, loop, ac, ".abs" if symabs else "")
+def _c09_fixed():
+    """the source comparators take a source as key (pending C09 repair): one-shot removal of path sources, which
+    dereferences a wild pointer in pathcmp on the unrepaired tree (C09's finding, no verdict here), can be exercised"""
+    try:
+        return "ev_src_t *my = (ev_src_t *)my_data" in open(os.path.join(REPO, "Lib/core/src.c")).read()
+    except OSError:
+        return False
+
+
+def _sym(kind, fire_cmp):
+    s = ["errno left by callbacks (int)"]
+    if kind == 2 and not fire_cmp:
+        s.append("timer clock id")
+    if kind == 6 and not fire_cmp:
+        s.append("task id (int)")
+    return s
+
+
+def _route(kind, route, dup=0, oneshot=0, fire=0, loop=0, ac=0, timeout=600):
+    if route in (1, 3, 7) or fire:
+        loop = 1
+    # a symbolic key is only affordable where no registry comparison reads it on the unrepaired tree (C09)
+    cmp_runs = bool(oneshot or kind >= 6) and (fire or route in (3, 7))
+    name = "C20.route.%s%s.%s.o%d.f%d.l%d.ac%d" % (KINDS[kind], ".dup" if dup else "", ROUTES[route], oneshot, fire, loop, ac)
     return l2_job(name, "l2/c20_routes.c",
-                  defines={"KIND": kind, "ROUTE": route, "DUP": dup, "ONESHOT": oneshot, "FIRE": fire, "LOOP": loop, "AC": ac, "SYMABS": symabs}, timeout=timeout,
-                  symbolic=SYM, bounds=name, unwind=13, task_fns=["my_task"],
-                  kf=["C20_dup_autoclose"] if dup else [])
+                  defines={"KIND": kind, "ROUTE": route, "DUP": dup, "ONESHOT": oneshot, "FIRE": fire, "LOOP": loop,
+                           "AC": ac, "SYMKEY": 0 if cmp_runs else 5},
+                  symbolic=_sym(kind, cmp_runs), bounds=name, unwind=13, task_fns=["my_task"], timeout=timeout,
+                  kf=[KF_DUP] if dup and ac else [], fp_extra=FP_EXTRA)
+
+
+def _retain(kind, oneshot=1, ac=0, dup=0, hold=1, rel=0, end=0, timeout=600):
+    name = "C20.retain.%s%s.o%d.ac%d.h%d.r%d.e%d" % (KINDS[kind], ".dup" if dup else "", oneshot, ac, hold, rel, end)
+    cmp_runs = bool(oneshot or kind >= 6)
+    return l2_job(name, "l2/c20_retain.c",
+                  defines={"KIND": kind, "ONESHOT": oneshot, "AC": ac, "DUP": dup, "HOLD": hold, "REL": rel, "END": end,
+                           "SYMKEY": 0 if cmp_runs else 1},
+                  symbolic=_sym(kind, cmp_runs), bounds=name, unwind=13, task_fns=["my_task"], timeout=timeout,
+                  kf=[KF_DUP] if dup and ac else [], fp_extra=FP_EXTRA)
+
+
+def _start(pre, ac, how, again=0, timeout=600):
+    name = "C20.start.pre%d.ac%d.how%d.again%d" % (pre, ac, how, again)
+    return l2_job(name, "l2/c20_start.c", defines={"PRE": pre, "AC": ac, "HOW": how, "AGAIN": again},
+                  symbolic=["errno left by callbacks (int)", "timer clock id"], bounds=name, unwind=13, timeout=timeout,
+                  fp_extra=FP_EXTRA)
+
+
+def _ctx(tick, ctxfd, end, timeout=600):
+    name = "C20.ctx.tick%d.fd%d.end%d" % (tick, ctxfd, end)
+    return l2_job(name, "l2/c20_ctx.c", defines={"TICK": tick, "CTXFD": ctxfd, "END": end},
+                  symbolic=["quit code (uint8)", "errno left by callbacks (int)"], bounds=name, unwind=13, timeout=timeout,
+                  fp_extra=FP_EXTRA)
 
 
 def jobs(tier):
     js = []
-    js.append(_route(2, 0, timeout=200))
-    js.append(_route(2, 0, ac=-1, timeout=200))
-    js.append(_route(2, 0, symabs=1, timeout=200))
-    js.append(_route(1, 0, ac=1, timeout=200))
-    return js
+    if tier == "quick":
+        # every kind along the plain stop and the two in-handler routes; the other routes on fd (auto-close on) and timer
+        for k in (1, 2, 3, 4, 5, 6, 7):
+            js.append(_route(k, 0, ac=1 if k == 1 else 0))
+            js.append(_route(k, 7))
+        for r in (1, 2, 3, 4, 5, 6, 8):
+            js.append(_route(1, r, ac=1))
+            js.append(_route(2, r))
+        js += [_route(1, 0, ac=0), _route(1, 5, ac=0), _route(1, 3, ac=0),
+               _route(1, 0, dup=1), _route(1, 5, dup=1), _route(1, 7, dup=1), _route(1, 4, dup=1), _route(1, 0, dup=1, ac=1),
+               _route(1, 0, oneshot=1, fire=1, ac=1), _route(1, 7, oneshot=1, ac=1), _route(2, 7, oneshot=1),
+               _route(2, 2, oneshot=1, fire=1), _route(3, 3), _route(5, 3)]
+        js += [_retain(1, ac=1), _retain(1, ac=0), _retain(2), _retain(2, oneshot=0), _retain(2, oneshot=0, hold=2),
+               _retain(2, rel=1), _retain(2, end=1), _retain(3), _retain(6), _retain(1, dup=1)]
+        js += [_start(0, 0, 0), _start(1, 1, 0), _start(2, 0, 0), _start(1, 1, 1), _start(1, 0, 2), _start(1, 1, 0, again=1)]
+        js += [_ctx(1, 1, 0), _ctx(2, 0, 1), _ctx(3, 1, 1), _ctx(4, 1, 0), _ctx(5, 2, 0), _ctx(2, 1, 2)]
+        return js
+    for k in (1, 2, 3, 4, 5, 6, 7):
+        for r in range(9):
+            if k == 6 and r in (4, 8):      # tasks cannot be deregistered
+                continue
+            js.append(_route(k, r))
+            if r in (0, 2, 5) and k != 1:
+                js.append(_route(k, r, loop=1))
+    for r in range(9):
+        js += [_route(1, r, ac=1), _route(1, r, dup=1), _route(1, r, dup=1, ac=1)]
+    for k in (1, 2, 3, 5) + ((4,) if _c09_fixed() else ()):
+        for r in (0, 1, 2, 4, 5, 6):
+            js.append(_route(k, r, oneshot=1, fire=1, ac=1 if k == 1 else 0))
+            js.append(_route(k, r, oneshot=1, fire=0, ac=1 if k == 1 else 0))
+        for r in (3, 7):
+            js.append(_route(k, r, oneshot=1, ac=1 if k == 1 else 0))
+    for k in (1, 2, 6, 7):
+        for r in (0, 2, 5):
+            js.append(_route(k, r, fire=1, ac=1 if k == 1 else 0))
+    for k in (1, 2, 3, 5, 6, 7) + ((4,) if _c09_fixed() else ()):
+        for end in (0, 1, 2):
+            js.append(_retain(k, end=end))
+        js += [_retain(k, rel=1), _retain(k, rel=2), _retain(k, hold=0, end=2)]
+        if k < 6:
+            js += [_retain(k, oneshot=0), _retain(k, oneshot=0, end=1), _retain(k, oneshot=0, end=2)]
+        if k != 1:
+            js += [_retain(k, hold=2, oneshot=0 if k < 6 else 1)]
+    js += [_retain(1, ac=1), _retain(1, ac=1, end=1), _retain(1, ac=1, end=2), _retain(1, ac=1, oneshot=0), _retain(1, dup=1),
+           _retain(1, dup=1, ac=1), _retain(1, dup=1, oneshot=0, end=2)]
+    for pre, ac in ((0, 0), (1, 0), (1, 1), (2, 0)):
+        for how in (0, 1, 2, 3):
+            js.append(_start(pre, ac, how))
+            if how != 2:
+                js.append(_start(pre, ac, how, again=1))
+    for tick in range(6):
+        for ctxfd in (0, 1, 2):
+            for end in (0, 1, 2):
+                js.append(_ctx(tick, ctxfd, end))
+    seen, out = set(), []
+    for j in js:
+        if j.name not in seen:
+            seen.add(j.name)
+            out.append(j)
+    return out
 
 
-META = {}
-MANIFEST = {"text": "tbd", "note": "tbd"}
+PARALLEL = {"quick": 6, "thorough": 12}
+
+MANIFEST = {
+    "text": "Bounded model checking of the whole core on the OS model, whose descriptor table carries ghost ownership "
+            "(opened by the library / by the user) and counts every close() of a user descriptor and every close() of "
+            "a descriptor that is not open.  Scenario families: (routes) one source of each kind - fd, fd with "
+            "library-made duplicate, timer, signal, path, pid, task, threshold - on a RUNNING module x the way the "
+            "module leaves RUNNING (stop, poison pill, deregistration from outside, deregistration / stop inside the "
+            "handler of the source's own event, explicit source deregistration, pause+resume+stop, stop while paused, "
+            "source deregistration while paused) x auto-close / duplicate / one-shot flags x whether the source fired "
+            "before; (retain) the handler keeps the event (m_mem_ref, m_mod_stash) and releases it while running, after "
+            "the stop, or after module and context are gone; (start) refusing on_start(), self-deregistration in "
+            "on_start(), restart; (ctx) tick source set/replaced/cleared around loop runs, m_ctx_fd().  Oracle at the "
+            "end of each scenario (every module deregistered, context released, all references dropped): no "
+            "library-owned descriptor open, a user descriptor closed exactly once iff registered with auto-close and "
+            "never while its source was registered and its module not stopped, never a close() of a descriptor that "
+            "is not open; CBMC's pointer checks on top (a source destructor touching a freed module shows up there)",
+    "note": "flags, kinds, routes and call order are per-job constants: any symbolic bit in a source's flag word "
+            "(AUTOCLOSE, ONESHOT, TMR_ABSOLUTE) or a symbolic timer period / signal number / pid gave no verdict in "
+            "150 s (10 s concrete), so the quantifier over flag mixes is an enumeration; free per job are only errno left "
+            "by callbacks, timer clock id, task id, quit code.  DUP|AUTOCLOSE: the property text has the user's "
+            "descriptor closed once, the library closes only its duplicate (known finding C20_dup_autoclose).  "
+            "One-shot path sources only on a tree with the C09 comparator repair (pathcmp dereferences a wild pointer "
+            "otherwise).  m_ctx_deregister() with registered modules (C07) is not used: every module is deregistered "
+            "explicitly and the non-persistent context goes with the last one.",
+}
